@@ -21,6 +21,7 @@ EXPLANATION = (
     "direct claim); the removal itself is checked for an atomic hand-over: rmlink applied to the shared lock path after a "
     "separate readlink of that path is the check-then-act defect F50 (reported as known finding, schedule in "
     "known_findings.d/C50.json); (c) unlock removes only when int(readlink(name)) == os.getpid() and then clears locked; "
+    "the `clean` flag published with the lock starts True, becomes False once this call removed a dead owner's link and is never reset inside the retry loop; "
     "isLocked releases what it acquired; the POSIX primitives are os.symlink/readlink/remove/kill and the Windows emulation "
     "publishes the lock name only by rename from a unique temporary. Not decided: the interleaving semantics themselves. "
     "Every anchor function is also checked to be entered on every call (no memoising/wrapping decorator, duplicate definition or rebinding). "
@@ -146,6 +147,42 @@ def _s_lock(ctx, S):
 
 
 
+def _s_clean(ctx, S):
+    """`clean` tells the new holder whether the previous owner released the lock itself.  Typestate of the loop-carried flag: True initially,
+    False once this very call removed a dead owner's link, and never back to True inside the retry loop."""
+    f = ctx.func(LF, "FilesystemLock.lock")
+    g = ctx.cfg(f)
+    q = QL + ".lock"
+    creates = node_calls(g, lambda c: call_name(c) == "symlink")
+    removes = node_calls(g, lambda c: call_name(c) == "rmlink")
+    if not creates:
+        return
+    cn = creates[0][0]
+    pubs = g.ids(lambda n: n.kind == "stmt" and isinstance(n.ast, ast.Assign) and any(is_self_attr(t, "clean") for t in n.ast.targets))
+    ctx.check(bool(pubs) and all(isinstance(g.node(p).ast.value, ast.Name) for p in pubs), "clean/published-from-loop-flag", q,
+              "lock() does not publish self.clean from the flag carried through its retry loop")
+    if not pubs or not isinstance(g.node(pubs[0]).ast.value, ast.Name):
+        return
+    flag = g.node(pubs[0]).ast.value.id
+    for x in [e for e in normal_exits(g) if isinstance(g.node(e).ast, ast.Return) and src(g.node(e).ast.value) == "True"]:
+        ctx.check(g.must_precede(pubs, [x], exc=False) is None, "clean/published-from-loop-flag", ctx.construct(q, "return True"), "lock() returns True without having set self.clean")
+    sets = g.ids(lambda n: n.kind == "stmt" and isinstance(n.ast, (ast.Assign, ast.AugAssign, ast.AnnAssign)) and
+                 any(isinstance(t, ast.Name) and t.id == flag for t in (n.ast.targets if isinstance(n.ast, ast.Assign) else [n.ast.target])))
+    in_loop = [n for n in sets if g.path([cn], [n], strict=True) is not None]         # reachable again from the create: inside the retry loop
+    before = [n for n in sets if n not in in_loop]
+    ctx.check(len(before) >= 1 and all(src(g.node(n).ast.value) == "True" for n in before), "clean/starts-true", q, f"the flag {flag} does not start as True before the retry loop")
+    for n in in_loop:
+        ctx.check(src(g.node(n).ast.value) == "False", "clean/never-reset-inside-retry-loop", ctx.construct(q, g.node(n).ast),
+                  f"{flag} is set back to {src(g.node(n).ast.value)} inside the retry loop: a call that has already removed a dead owner's link (rmlink) and then goes "
+                  f"round again reports clean=True - the acquirer is told the dead process exited cleanly")
+    falses = [n for n in in_loop if src(g.node(n).ast.value) == "False"]
+    for rn, rc in removes:
+        w = g.path([rn], [cn] + pubs, avoid=falses, edge_ok=no_exc, strict=True)
+        ctx.check(bool(falses) and w is None, "clean/false-after-breaking-stale-lock", ctx.construct(q, "rmlink(<lock path>) on the stale branch"),
+                  f"after this call removed a dead owner's link the flag {flag} is not set False before the create is retried: the lock is reported as released cleanly",
+                  witness=g.describe(w))
+
+
 def _s_unlock(ctx, S):
     # (c) unlock
     f = ctx.func(LF, "FilesystemLock.unlock")
@@ -232,7 +269,7 @@ def _s_body(ctx, S):
 
 
 def check(ctx):
-    run_sections(ctx, [("lock", _s_lock), ("unlock", _s_unlock), ("isLocked", _s_probe), ("posix-primitives", _s_posix), ("windows-emulation", _s_windows),
+    run_sections(ctx, [("lock", _s_lock), ("clean", _s_clean), ("unlock", _s_unlock), ("isLocked", _s_probe), ("posix-primitives", _s_posix), ("windows-emulation", _s_windows),
                        ("body-entered", _s_body)])
 
 
@@ -257,6 +294,9 @@ MUTANTS = [
            expect_rule="stale/only-when-owner-dead"),
     Mutant("claim-after-break-without-create", LF, "                            clean = False\n                            continue\n", "                            self.clean = False\n                            self.locked = True\n                            return True\n",
            expect_rule="acquire/"),
+    Mutant("vanished-lock-counts-as-clean", LF, "                            # The lock has vanished, try to claim it in the\n                            # next iteration through the loop.\n                            continue\n                        elif _windows",
+           "                            clean = True\n                            continue\n                        elif _windows", expect_rule="clean/never-reset-inside-retry-loop"),
+    Mutant("stale-break-not-recorded", LF, "                            clean = False\n                            continue\n", "                            continue\n", expect_rule="clean/false-after-breaking-stale-lock"),
     Mutant("probe-keeps-lock", LF, "        if result:\n            l.unlock()\n", "        if not result:\n            l.unlock()\n", expect_rule="probe/releases-what-it-acquired"),
     Mutant("windows-swallows-rename-failure", LF, "            os.remove(newvalname)\n            os.rmdir(newlinkname)\n            raise\n", "            os.remove(newvalname)\n            os.rmdir(newlinkname)\n",
            expect_rule="windows/create-failure-propagates"),
